@@ -15,10 +15,22 @@ Definition inside_star (o h : line) : Prop :=
     (kernel (close_ring o) c /\ forall p, In p h -> reach (close_ring o) c p) \/
     (kernel (rev (close_ring o)) c /\ forall p, In p h -> reach (rev (close_ring o)) c p).
 
+(* p lies outside the ring r: it is joined, by axis-parallel legs that do not meet r, to a point
+   outside r's bounding box (p itself if it is outside the box: empty path).  r may have any shape. *)
+Definition outside_ring (r : line) (p : point) : Prop :=
+  exists z, outside_bbox r z /\ reach r z p.
+
 Definition contained_geo (sc : gscene) : Prop :=
   (forall o hs h, In (o, hs) sc -> In h hs -> inside_star o h) /\
   (forall o hs h o' hs', In (o, hs) sc -> In h hs -> In (o', hs') sc -> o' <> o ->
-     forall p, In p h -> outside_bbox (close_ring o') p).
+     forall p, In p h -> outside_ring (close_ring o') p).
+
+Theorem outside_ring_not_inside : forall r p, line_closed r -> outside_ring r p ->
+  point_in_ring r p = false.
+Proof.
+  intros r p Hc (z & Hz & path & Hp & <-). rewrite (path_parity r path z Hc Hp).
+  apply point_outside_bbox. exact Hz.
+Qed.
 
 Lemma rot_zero : forall (r : line), rot 0 r = r.
 Proof. intros r. unfold rot. simpl. apply app_nil_r. Qed.
@@ -41,12 +53,17 @@ Qed.
 Theorem contained_geo_contained : forall sc,
   Forall (fun r => (3 <= length r)%nat) (s_outers sc) -> contained_geo sc -> contained sc.
 Proof.
-  intros sc Hlen [Hin Hout]. split; [|exact Hout].
-  intros o hs h Hoh Hh. apply inside_star_even_odd; [|apply (Hin o hs h Hoh Hh)].
-  rewrite Forall_forall in Hlen.
-  assert (H3 : (3 <= length o)%nat).
-  { apply Hlen. unfold s_outers. apply in_map_iff. exists (o, hs). split; [reflexivity|exact Hoh]. }
-  lia.
+  intros sc Hlen [Hin Hout]. rewrite Forall_forall in Hlen.
+  assert (H3 : forall o hs, In (o, hs) sc -> (3 <= length o)%nat).
+  { intros o hs Hoh. apply Hlen. unfold s_outers. apply in_map_iff. exists (o, hs). split; [reflexivity|exact Hoh]. }
+  split.
+  - intros o hs h Hoh Hh. apply inside_star_even_odd; [|apply (Hin o hs h Hoh Hh)].
+    pose proof (H3 o hs Hoh). lia.
+  - intros o hs h o' hs' Hoh Hh Hoh' Hne.
+    apply Bool.not_true_is_false. intro Ex. apply existsb_exists in Ex. destruct Ex as (p & Hp & Hin').
+    rewrite (outside_ring_not_inside (close_ring o') p) in Hin'; [discriminate| |].
+    + apply close_ring_closed. pose proof (H3 o' hs' Hoh'). intro E. subst. simpl in H. lia.
+    + apply (Hout o hs h o' hs' Hoh Hh Hoh' Hne p Hp).
 Qed.
 
 (* holes_assigned over geometric containment *)
